@@ -135,6 +135,11 @@ func c13Gen(r *sim.Rand, tier string) *sim.Case {
 	cs.Knobs["reqto_s"] = int64(sim.Pick(r, 5, 10, 30, 30))
 	cs.Knobs["hb_s"] = int64(sim.Pick(r, 2, 10))
 	cs.Knobs["lat_us"] = int64(sim.Pick(r, 100, 300, 5000, 200000))
+	if r.P(25) {
+		// slow or stalled node: at this per-mille of its scheduling points a goroutine of either
+		// node stalls for 1 ms - 2 s while everything else goes on
+		cs.Knobs["stall_pm"] = int64(sim.Pick(r, 3, 10, 30))
+	}
 	switch cs.Variant {
 	case "cuts":
 		cs.Knobs["pm_cut"] = int64(sim.Pick(r, 30, 100, 300))
@@ -157,7 +162,7 @@ func c13Gen(r *sim.Rand, tier string) *sim.Case {
 		cs.Ops = append(cs.Ops, sim.Op{K: "sleep", A: []int64{1}}) // let the first sync + attach complete
 	}
 	for i := 0; i < n; i++ {
-		w := []int{10, 8, 6, 8, 0, 0, 0, 0, 0, 0, 0, 0}
+		w := []int{10, 8, 6, 8, 0, 0, 0, 0, 0, 0, 0, 0, 2}
 		if cs.Variant != "calm" && cs.Variant != "crash" {
 			w[11] = 2
 		}
@@ -197,6 +202,8 @@ func c13Gen(r *sim.Rand, tier string) *sim.Case {
 				sim.Op{K: "sleep", A: []int64{int64(r.Weighted(2, 3, 3, 2, 2, 1))}}, sim.Op{K: "heal"})
 		case 9:
 			cs.Ops = append(cs.Ops, sim.Op{K: "crash", A: []int64{int64(r.N(3))}})
+		case 12:
+			cs.Ops = append(cs.Ops, sim.Op{K: "cut"}, sim.Op{K: "attachpush", A: []int64{id}}, sim.Op{K: "sleep", A: []int64{int64(sim.Pick(r, 0, 1, 2))}})
 		case 11:
 			// the standby's own store refuses one delete (or put), then the link drops: the next full sync has to repair it
 			cs.Ops = append(cs.Ops, sim.Op{K: "sberr", A: []int64{int64(r.Weighted(3, 1))}}, sim.Op{K: sim.Pick(r, "del", "del", "upd"), A: []int64{id}},
@@ -420,7 +427,7 @@ func (w *c13world) checkStream(id int, final bool) {
 	if cn := w.streams[id]; cn != nil && best < np && !cn.cliNode.Dead() {
 		if t, ok := cn.LastReadFlushAt(); ok {
 			p := w.pushes[lo+best]
-			if p.at < t {
+			if p.at < t && t-p.at > c.S.StallSum(p.at, t) { // (a stalled broadcast chain may let a heartbeat overtake)
 				c.Fail("stream", "stream/skipped-behind-later-data/"+p.kind,
 					"stream connection %d: change #%d (%s %s v%d) was pushed at %v while the stream was connected and never applied, although the standby went on to read stream data the active flushed at %v (applied: %v)",
 					id, lo+best, p.kind, p.id, p.ver, p.at, t, A)
@@ -436,7 +443,7 @@ func (w *c13world) checkStream(id int, final bool) {
 	// standby saw the stream end, with no partition in between, was not in flight.
 	if cn := w.streams[id]; cn != nil && best < np && !final && cn.ended && !cn.cliNode.Dead() {
 		p := w.pushes[lo+best]
-		if p.at < cn.endAt && !w.net.PartitionedDuring(p.at, cn.endAt) {
+		if p.at < cn.endAt && cn.endAt-p.at > c.S.StallSum(p.at, cn.endAt) && !w.net.PartitionedDuring(p.at, cn.endAt) {
 			c.Fail("stream", "stream/lost-long-before-disconnect/"+p.kind,
 				"stream connection %d: change #%d (%s %s v%d) was pushed at %v while the stream was connected and never applied on it, although the standby saw the stream end only at %v with no partition in between (applied: %v)",
 				id, lo+best, p.kind, p.id, p.ver, p.at, cn.endAt, A)
@@ -588,6 +595,20 @@ func c13Run(c *sim.Ctx) {
 		case "del":
 			if exists(id) {
 				push(ha.SyncTypeDelete, "del", id)
+			}
+		case "attachpush":
+			// a change made at the very instant a new stream's response head reaches the standby
+			// (the standby reports connected from then on)
+			before := w.curStream
+			deadline := c.S.Now() + reqTO + 40*time.Second
+			c.S.WaitUntil(func() bool { return (w.curStream >= 0 && w.curStream != before) || c.S.Now() >= deadline })
+			if w.curStream >= 0 && w.curStream != before {
+				c.S.Probe("push_at_stream_attach")
+				if exists(id) {
+					push(ha.SyncTypeUpdate, "put", id)
+				} else {
+					push(ha.SyncTypeAdd, "put", id)
+				}
 			}
 		case "sleep":
 			c.S.Sleep(sleeps[int(op.Arg(len(op.A)-1))%len(sleeps)])
